@@ -1,1 +1,3 @@
+import LeraxProofs.C01
 import LeraxProofs.C03
+import LeraxProofs.C13
